@@ -167,7 +167,6 @@ func runResetEq(c *core.Ctx) []core.Obligation {
 	return obs
 }
 
-
 // cutoffAdvance (after round-6 seed C11-r6m1, `nodeCutoff = nextNodeCutoff` moved from Next to the top of StartUnion):
 // the contents iterator suppresses duplicates across ranges by not climbing above nodeCutoff. The cut-off may be raised
 // to the node where the previous range started only once the walk from that node has reached the old cut-off, i.e. on
@@ -236,7 +235,6 @@ func cutoffAdvance(c *core.Ctx) core.Obligation {
 	}
 	return core.Ob("R-RESETEQ", construct, "-", "", core.Discharged, fmt.Sprintf("%d assignment(s), each on the exhausted branch of Next", n))
 }
-
 
 // cutoffInclusive (after round-7 seed C11-r7m1, `contents <= c.nodeCutoff` turned into `<` in StartUnion): nodeCutoff
 // is the index of the last node that has been REPORTED, so "already reported" is `node <= nodeCutoff` at every place
